@@ -580,15 +580,17 @@ private theorem bake_absent_eq_empty (env : Env B) (a ae : Option Str) (params :
 
 /-- the ASGI app on the presented request: it never raises and is `_bake_output` on the latin-1 text of the same bytes -/
 private theorem asgi_eq (env : Env B) (parseQs : Str → List (Str × List Str))
-    (parseQsB : Bytes → PyM (List (Bytes × List Bytes))) (r : Req) (an aen : Bytes) (d : Bool)
+    (parseQsAlt : Str → List (Str × List Str)) (parseQsB : Bytes → PyM (List (Bytes × List Bytes))) (r : Req) (an aen : Bytes) (d : Bool)
     (han : lower (latin1 an) = "accept".toList) (haen : lower (latin1 aen) = "accept-encoding".toList) (hok : r.OthersOk) :
-    asgiApp env parseQs parseQsB d (r.scope an aen)
+    asgiApp env parseQs parseQsAlt parseQsB d (r.scope an aen)
       = .ok (bakeOutput env (r.accept.map latin1) (r.acceptEnc.map latin1) (strParams (parseQs (latin1 r.query))) d) := by
   obtain ⟨ha1, ha2⟩ := asgiHeader_fields r an aen hok han haen
   have hq : Generated.Http.asgiQueryDecoded = true := by decide
+  -- asgi.py calls `parse_qs` with the default percent-decoding, i.e. the same function as the other two front-ends
+  have hd : Generated.Http.asgiParseDefault = true := by decide
   have hc : decodeWith Generated.Http.asgiQueryCodec r.query = .ok (latin1 r.query) := rfl
   unfold asgiApp asgiParams Req.scope
-  simp only [ha1, ha2, Option.getD_some, hq, if_true, hc, Except.map, bake_absent_eq_empty]
+  simp only [ha1, ha2, Option.getD_some, hq, hd, if_true, hc, Except.map, bake_absent_eq_empty]
 
 /-- **frontends_agree.**  For EVERY GET request given as BYTES — any Accept value or none, any Accept-Encoding value or
 none (any bytes, also ≥ 0x80), any other header fields, any spelling of the two field names, any query bytes (`name[]`
@@ -606,17 +608,17 @@ by the harness) and asgi.py's decoding is modelled with the extracted codec.  Th
   RFC 3986 path or query (clients send `%23`).  With one, the theorem is FALSE: `urlparse` cuts the target at '#', wsgiref
   and ASGI servers do not — see `raw_hash_in_target_differs`.  `wsgi_asgi_agree` does not need this limit. -/
 theorem frontends_agree (env : Env B) (parseQs : Str → List (Str × List Str))
-    (parseQsB : Bytes → PyM (List (Bytes × List Bytes))) (unq : Str → Str) (r : Req) (an aen : Bytes)
+    (parseQsAlt : Str → List (Str × List Str)) (parseQsB : Bytes → PyM (List (Bytes × List Bytes))) (unq : Str → Str) (r : Req) (an aen : Bytes)
     (han : lower (latin1 an) = "accept".toList) (haen : lower (latin1 aen) = "accept-encoding".toList) (hok : r.OthersOk)
     (hp : '?' ∉ r.path) (hph : '#' ∉ r.path) (hqh : '#' ∉ latin1 r.query)
     (hfav : unq r.path ≠ "/favicon.ico".toList) :
     wsgiApp env parseQs false (r.environ "GET".toList unq)
-        = asgiApp env parseQs parseQsB false (r.scope an aen) ∧
-    asgiApp env parseQs parseQsB false (r.scope an aen)
+        = asgiApp env parseQs parseQsAlt parseQsB false (r.scope an aen) ∧
+    asgiApp env parseQs parseQsAlt parseQsB false (r.scope an aen)
         = .ok (handlerGet env parseQs (r.handler an aen)) := by
   have hw := wsgi_get env parseQs false (r.environ "GET".toList unq) (unq r.path) rfl rfl hfav
   obtain ⟨hh1, hh2⟩ := headersGet_fields r an aen hok han haen
-  have hasgi := asgi_eq env parseQs parseQsB r an aen false han haen hok
+  have hasgi := asgi_eq env parseQs parseQsAlt parseQsB r an aen false han haen hok
   have hhand : handlerGet env parseQs (r.handler an aen)
       = bakeOutput env (r.accept.map latin1) (r.acceptEnc.map latin1) (strParams (parseQs (latin1 r.query))) false := by
     unfold handlerGet Req.handler
@@ -629,12 +631,12 @@ theorem frontends_agree (env : Env B) (parseQs : Str → List (Str × List Str))
 /-- **wsgi_asgi_agree.**  WSGI and ASGI agree on every GET request (bytes, as above) for either setting of
 `disable_compression`; no scope limit on '#'. -/
 theorem wsgi_asgi_agree (env : Env B) (parseQs : Str → List (Str × List Str))
-    (parseQsB : Bytes → PyM (List (Bytes × List Bytes))) (unq : Str → Str) (r : Req) (an aen : Bytes) (d : Bool)
+    (parseQsAlt : Str → List (Str × List Str)) (parseQsB : Bytes → PyM (List (Bytes × List Bytes))) (unq : Str → Str) (r : Req) (an aen : Bytes) (d : Bool)
     (han : lower (latin1 an) = "accept".toList) (haen : lower (latin1 aen) = "accept-encoding".toList) (hok : r.OthersOk)
     (hfav : unq r.path ≠ "/favicon.ico".toList) :
-    wsgiApp env parseQs d (r.environ "GET".toList unq) = asgiApp env parseQs parseQsB d (r.scope an aen) := by
+    wsgiApp env parseQs d (r.environ "GET".toList unq) = asgiApp env parseQs parseQsAlt parseQsB d (r.scope an aen) := by
   rw [wsgi_get env parseQs d (r.environ "GET".toList unq) (unq r.path) rfl rfl hfav,
-    asgi_eq env parseQs parseQsB r an aen d han haen hok]
+    asgi_eq env parseQs parseQsAlt parseQsB r an aen d han haen hok]
   rfl
 
 /-- WSGI and MetricsHandler agree on every GET request whose target has no raw '#' -/
@@ -676,6 +678,8 @@ def exParseQs (q : Str) : List (Str × List Str) :=
   else if q = "name[]=up".toList then [("name[]".toList, ["up".toList])]
   else if q = "lang=%C3%A9".toList then [("lang".toList, [[Char.ofNat 0xe9]])]
   else []
+/-- `parse_qs(…, encoding='latin-1')`: a different function (never reached while asgi.py uses the default decoding) -/
+def exParseQsAlt (_ : Str) : List (Str × List Str) := [("name[]".toList, ["mojibake".toList])]
 /-- latin-1 encode -/
 def exEnc (s : Str) : Bytes := s.map fun c => UInt8.ofNat c.toNat
 /-- `parse_qs` on `bytes` as the standard library behaves (no longer reached by asgi.py) -/
@@ -694,20 +698,20 @@ def exReq (q : String) : Req :=
 with a header byte ≥ 0x80; the common answer is the gzip-compressed OpenMetrics exposition, restricted to `['a']` in the
 first case -/
 example :
-    (asgiApp exEnv exParseQs exParseQsB false
+    (asgiApp exEnv exParseQs exParseQsAlt exParseQsB false
         ((exReq "name[]=a").scope (exEnc "accept".toList) (exEnc "accept-encoding".toList))).toOption.map (fun r => (r.status, r.body))
       = some (statusOK, (Fmt.om, some [PyKey.str "a".toList], true)) ∧
-    (asgiApp exEnv exParseQs exParseQsB false
+    (asgiApp exEnv exParseQs exParseQsAlt exParseQsB false
         ((exReq "lang=%C3%A9").scope (exEnc "accept".toList) (exEnc "accept-encoding".toList))).toOption.map (fun r => (r.status, r.body))
       = some (statusOK, (Fmt.om, none, true)) := by
   constructor <;> decide +kernel
 
 example :
     wsgiApp exEnv exParseQs false ((exReq "name[]=a").environ "GET".toList id)
-      = asgiApp exEnv exParseQs exParseQsB false ((exReq "name[]=a").scope (exEnc "ACCEPT".toList) (exEnc "Accept-Encoding".toList))
-    ∧ asgiApp exEnv exParseQs exParseQsB false ((exReq "name[]=a").scope (exEnc "ACCEPT".toList) (exEnc "Accept-Encoding".toList))
+      = asgiApp exEnv exParseQs exParseQsAlt exParseQsB false ((exReq "name[]=a").scope (exEnc "ACCEPT".toList) (exEnc "Accept-Encoding".toList))
+    ∧ asgiApp exEnv exParseQs exParseQsAlt exParseQsB false ((exReq "name[]=a").scope (exEnc "ACCEPT".toList) (exEnc "Accept-Encoding".toList))
       = .ok (handlerGet exEnv exParseQs ((exReq "name[]=a").handler (exEnc "ACCEPT".toList) (exEnc "Accept-Encoding".toList))) :=
-  frontends_agree exEnv exParseQs exParseQsB id (exReq "name[]=a") _ _ (by decide +kernel) (by decide +kernel)
+  frontends_agree exEnv exParseQs exParseQsAlt exParseQsB id (exReq "name[]=a") _ _ (by decide +kernel) (by decide +kernel)
     (Req.othersOk_of_all _ (by decide +kernel)) (by decide +kernel) (by decide +kernel) (by decide +kernel)
     (by decide +kernel)
 
@@ -718,7 +722,7 @@ scope of `frontends_agree` (hypotheses `hph`, `hqh`), not a finding. -/
 theorem raw_hash_in_target_differs :
     (wsgiApp exEnv exParseQs false ((exReq "name[]=up#x").environ "GET".toList id)).toOption.map (·.body)
         = some (Fmt.om, some [PyKey.str "up#x".toList], true) ∧
-    (asgiApp exEnv exParseQs exParseQsB false
+    (asgiApp exEnv exParseQs exParseQsAlt exParseQsB false
         ((exReq "name[]=up#x").scope (exEnc "accept".toList) (exEnc "accept-encoding".toList))).toOption.map (·.body)
         = some (Fmt.om, some [PyKey.str "up#x".toList], true) ∧
     (handlerGet exEnv exParseQs ((exReq "name[]=up#x").handler (exEnc "Accept".toList) (exEnc "Accept-Encoding".toList))).body
@@ -731,7 +735,7 @@ text. -/
 theorem duplicate_field_lines_differ :
     let fields := [(exEnc "accept".toList, exEnc "text/plain".toList),
                    (exEnc "accept".toList, exEnc "application/openmetrics-text".toList)]
-    (asgiApp exEnv exParseQs exParseQsB false ⟨fields, none⟩).toOption.map (·.body) = some (Fmt.om, none, false) ∧
+    (asgiApp exEnv exParseQs exParseQsAlt exParseQsB false ⟨fields, none⟩).toOption.map (·.body) = some (Fmt.om, none, false) ∧
     (handlerGet exEnv exParseQs ⟨fields.map l1p, "/metrics".toList⟩).body = (Fmt.text, none, false) := by
   constructor <;> decide +kernel
 
